@@ -75,7 +75,7 @@ fn calibrate() -> Calib {
     verif_sync::set_hook(Some(rec.clone() as Arc<dyn Hook>));
     let take = |rec: &Recorder| -> Vec<(usize, &'static str, &'static str, u64)> { std::mem::take(&mut *rec.log.lock().unwrap()) };
     let mut roles: Vec<Option<&'static str>> = vec![None; span];
-    let mut set = |roles: &mut Vec<Option<&'static str>>, problems: &mut Vec<String>, obj: usize, role: &'static str| {
+    let set = |roles: &mut Vec<Option<&'static str>>, problems: &mut Vec<String>, obj: usize, role: &'static str| {
         if obj < base || obj - base >= roles.len() {
             return;
         }
